@@ -219,6 +219,20 @@ def run(ctx, replay):
     if selftest:
         ctx.cov["binding_selftest"] = "forged rows rejected: " + "; ".join(selftest.values())
 
+    if replay:
+        ev = events[0]
+        v = verdicts.get(ev["t"])
+        print("REPLAY ext=X04 config:\n%s" % ev["out"].get("cfg", ""))
+        print("REPLAY ext=X04 real code: %s" % json.dumps({k: ev["out"].get(k) for k in
+                                                            ("action", "stage", "code", "ench", "msg", "queries", "parsed")}))
+        print("REPLAY ext=X04 documented: %s" % json.dumps(rows[0].get("exp")))
+        if v:
+            least = min(len(d) for d in v["devs"]) if v["devs"] else 0
+            print("REPLAY ext=X04 verdict of TLC: violated=%s differs-from-documented-rule=%s explained-by-deviations=%s" % (
+                sorted(v["viol"]), v["drift"], sorted(sorted(d) for d in v["devs"] if len(d) == least)))
+        else:
+            print("REPLAY ext=X04 verdict of TLC: accepted as conforming")
+
     # ---- verdicts ------------------------------------------------------------------
     drift = 0
     finding_rows = {}
